@@ -357,7 +357,8 @@ static const std::vector<std::string> ELEMENTS = {"H", "C", "N", "O", "S", "Si",
 static Val gen_val(vfh::Rng &r, int kind, const Val *shape_of = nullptr) {
   Val v;
   v.kind = kind;
-  auto len = [&](size_t old, long lo, long hi) { return shape_of ? (long)old : r.range(lo, hi); };
+  // empty containers (they hold, see the deterministic edge cases) are part of the random families
+  auto len = [&](size_t old, long lo, long hi) { return shape_of ? (long)old : (r.coin(0.06) ? 0L : r.range(lo, hi)); };
   switch (kind) {
     case K_INDEX: v.i = gen_index(r); break;
     case K_INT: v.i32 = gen_int(r); break;
@@ -379,12 +380,13 @@ static Val gen_val(vfh::Rng &r, int kind, const Val *shape_of = nullptr) {
         else if (c == 1) { rows = r.range(1, 60); cols = 1; }   // N x 1
         else if (c == 2) { rows = r.range(100, 300); cols = r.range(100, 300); }  // large
         else if (c == 3) { rows = cols = r.range(1, 30); }      // square
+        else if (c == 4 && r.coin(0.5)) { rows = 0; cols = r.range(1, 9); }  // 0 x N (0x0 and Nx0 are suspect families of their own)
         else { rows = r.range(1, 40); cols = r.range(1, 40); if (rows == cols) cols++; }  // non-square
       }
       v.m = gen_matrix(r, rows, cols);
       break;
     }
-    case K_VECTORXD: v.m = gen_matrix(r, shape_of ? shape_of->m.rows() : r.range(1, r.coin(0.1) ? 3000 : 50), 1); break;
+    case K_VECTORXD: v.m = gen_matrix(r, shape_of ? shape_of->m.rows() : (r.coin(0.06) ? 0L : r.range(1, r.coin(0.1) ? 3000 : 50)), 1); break;
     case K_VECTOR3D: v.m = gen_matrix(r, 3, 1); break;
     case K_VEC_VECTOR3D: { long n = len(shape_of ? shape_of->vv3.size() : 0, 1, 15); for (long k = 0; k < n; ++k) v.vv3.push_back(Eigen::Vector3d(gen_double(r), gen_double(r), gen_double(r))); break; }
     case K_TABLE: {
